@@ -43,48 +43,7 @@ pub fn gen_sess_run(check: &str, seed: u64, tier: Tier, with_probes: bool) -> Ru
         };
         let mut ops = gen_history(&mut w, &p, with_probes);
         if w.chance(1, 4) {
-            // several independent symmetries on one multi-slot leaf (S3 / dihedral groups), asserted
-            // at random points of the history, plus a parent that uses the leaf twice
-            let k = *w.pick(&[3usize, 3, 4]);
-            let base: Vec<S> = (0..k as S).collect();
-            let leaf = Tm::leaf(&format!("p{k}"), base.clone());
-            for _ in 0..w.range(2, 3) {
-                let mut v = base.clone();
-                let i = w.below(k);
-                let j = (i + 1 + w.below(k - 1)) % k;
-                v.swap(i, j);
-                if k == 4 && w.chance(1, 2) {
-                    // a product of two disjoint transpositions: its restriction to a subset of the
-                    // slots is a symmetry of its own
-                    let rest: Vec<usize> = (0..4).filter(|x| *x != i && *x != j).collect();
-                    v.swap(rest[0], rest[1]);
-                }
-                let other = Tm::leaf(&format!("p{k}"), v);
-                let pos = w.below(ops.len() + 1);
-                ops.insert(pos, Op::new("union").t(leaf.clone()).t(other).i(w.below(2) as i64));
-            }
-            if w.chance(1, 3) {
-                // an equation that makes one slot of the symmetric leaf itself redundant
-                let mut sub: Vec<S> = base.clone();
-                sub.remove(w.below(k));
-                let small = Tm::leaf(&format!("p{}", k - 1), sub);
-                let pos = w.below(ops.len() + 1);
-                ops.insert(pos, Op::new("union").t(leaf.clone()).t(small).i(w.below(2) as i64));
-            }
-            if w.chance(1, 2) {
-                let mut v = base.clone();
-                v.swap(0, k - 1);
-                let t = Tm::node("b", vec![], vec![(vec![], leaf.clone()), (vec![], Tm::leaf(&format!("p{k}"), v))]);
-                let pos = w.below(ops.len() + 1);
-                ops.insert(pos, Op::new("add").t(t.clone()));
-                if w.chance(1, 2) {
-                    // ... and an equation that makes one of its slots redundant
-                    let sub: Vec<S> = base.iter().copied().take(k - 1).collect();
-                    let small = Tm::leaf(&format!("p{}", k - 1), sub);
-                    let pos = w.below(ops.len() + 1);
-                    ops.insert(pos, Op::new("union").t(t).t(small).i(w.below(2) as i64));
-                }
-            }
+            insert_symmetry_bias(&mut ops, &mut w);
         }
         let n = pool_size(&ops);
         if n < 40 && Cc::universe_size(n, &all_terms(&ops)) <= cap {
@@ -167,6 +126,54 @@ pub fn relative_renamings(ft: &[S], fs: &[S], fresh: &[S]) -> Vec<BTreeMap<S, S>
     let mut out = Vec::new();
     rec(0, ft, fs, fresh, &mut Vec::new(), 0, &mut BTreeMap::new(), &mut out);
     out
+}
+
+/// Inserts, at random points of a history, several independent symmetries on one multi-slot leaf
+/// (S3 / dihedral / products of disjoint transpositions), optionally an equation that makes one
+/// slot of that leaf redundant, and a parent that uses the leaf twice.
+pub fn insert_symmetry_bias(ops: &mut Vec<Op>, w: &mut Rng) {
+    // several independent symmetries on one multi-slot leaf (S3 / dihedral groups), asserted
+    // at random points of the history, plus a parent that uses the leaf twice
+    let k = *w.pick(&[3usize, 3, 4]);
+    let base: Vec<S> = (0..k as S).collect();
+    let leaf = Tm::leaf(&format!("p{k}"), base.clone());
+    for _ in 0..w.range(2, 3) {
+        let mut v = base.clone();
+        let i = w.below(k);
+        let j = (i + 1 + w.below(k - 1)) % k;
+        v.swap(i, j);
+        if k == 4 && w.chance(1, 2) {
+            // a product of two disjoint transpositions: its restriction to a subset of the
+            // slots is a symmetry of its own
+            let rest: Vec<usize> = (0..4).filter(|x| *x != i && *x != j).collect();
+            v.swap(rest[0], rest[1]);
+        }
+        let other = Tm::leaf(&format!("p{k}"), v);
+        let pos = w.below(ops.len() + 1);
+        ops.insert(pos, Op::new("union").t(leaf.clone()).t(other).i(w.below(2) as i64));
+    }
+    if w.chance(1, 3) {
+        // an equation that makes one slot of the symmetric leaf itself redundant
+        let mut sub: Vec<S> = base.clone();
+        sub.remove(w.below(k));
+        let small = Tm::leaf(&format!("p{}", k - 1), sub);
+        let pos = w.below(ops.len() + 1);
+        ops.insert(pos, Op::new("union").t(leaf.clone()).t(small).i(w.below(2) as i64));
+    }
+    if w.chance(1, 2) {
+        let mut v = base.clone();
+        v.swap(0, k - 1);
+        let t = Tm::node("b", vec![], vec![(vec![], leaf.clone()), (vec![], Tm::leaf(&format!("p{k}"), v))]);
+        let pos = w.below(ops.len() + 1);
+        ops.insert(pos, Op::new("add").t(t.clone()));
+        if w.chance(1, 2) {
+            // ... and an equation that makes one of its slots redundant
+            let sub: Vec<S> = base.iter().copied().take(k - 1).collect();
+            let small = Tm::leaf(&format!("p{}", k - 1), sub);
+            let pos = w.below(ops.len() + 1);
+            ops.insert(pos, Op::new("union").t(t).t(small).i(w.below(2) as i64));
+        }
+    }
 }
 
 pub struct CcCtx {
